@@ -16,7 +16,7 @@ def expect_for(spec: dict, obs) -> refmodel.Expect:
     backend = lab['backend']
     storage_null = lab.get('storage', 'local') == 'none'
     return refmodel.evaluate(spec, obs.model_before, context=obs.context, bust=lab.get('bust_cache', False),
-                             storage_null=storage_null)
+                             storage_null=storage_null, corrupt=set(getattr(obs, 'corrupt', ())))
 
 
 def exc_text(ex) -> str:
@@ -129,7 +129,7 @@ def c02_ordering(spec: dict, obs, ex: refmodel.Expect) -> list[Finding]:
             node = h.by_name[r[1]]
             for j in specs.direct_deps(node):
                 dn = h.nodes[j]['name']
-                if ex.status.get(j) != 'loaded' and dn not in ended:
+                if ex.status.get(j) != 'loaded' and j not in ex.loaded and dn not in ended:
                     out.append(Finding('C02:run-began-before-dependency-ended',
                                        f'run() of {r[1]} began before dependency {dn} ended'))
     # (c) every read inside run() yields the dependency's real value of this run, or raises TaskError if it failed
@@ -182,7 +182,7 @@ def walk_instances(built, ex: refmodel.Expect):
         seen.add(id(t))
         nid = built.id_of(t)
         yield nid, t
-        if ex.status.get(nid) in ('ok', 'failed'):
+        if nid in ex.executed:
             stack.extend(vu.walk_tasks(t.deps))
 
 
@@ -201,7 +201,7 @@ def c03_once_only_if_needed(spec: dict, obs, ex: refmodel.Expect) -> list[Findin
             out.append(Finding('C03:executed-more-than-once', f'{n} executed {c} times'))
         if nid not in h.closure:
             out.append(Finding('C03:executed-outside-closure', f'{n} is outside the requested closure'))
-        elif ex.status.get(nid) == 'loaded':
+        elif ex.status.get(nid) == 'loaded' or nid in ex.loaded:
             out.append(Finding('C03:cached-task-executed', f'{n} is cached and bust_cache is off, but run() was called'))
         elif nid not in ex.status:
             out.append(Finding('C03:dependency-of-cached-task-touched', f'{n} is only needed by cached tasks but was executed'))
@@ -222,7 +222,7 @@ def c03_once_only_if_needed(spec: dict, obs, ex: refmodel.Expect) -> list[Findin
         if nid not in ex.status:
             out.append(Finding('C03:unneeded-task-submitted', f'{n} submitted although nothing needs it'))
             continue
-        want_load = ex.status[nid] == 'loaded'
+        want_load = ex.status[nid] == 'loaded' or nid in ex.loaded
         if flags[0] != want_load:
             out.append(Finding('C03:load-vs-execute-decision-wrong', f'{n} submitted with use_cache={flags[0]}, expected {want_load}'))
     if not aborted:
@@ -443,6 +443,8 @@ def c10_isolation(spec: dict, obs, ex: refmodel.Expect) -> list[Finding]:
                     allowed.add('CustomErr')
                 elif why.startswith('dep:'):
                     allowed.add('TaskError')
+                elif why == 'corrupt-cache':
+                    strict = False
                 elif why == 'unpicklable':
                     strict = False
             if obs.started_after_raise:
